@@ -579,7 +579,9 @@ def normalise_names(facts):
         want_locals = r.get("locals")
         if want_locals is not None:
             cur = [(i, loc) for i, loc in enumerate(bj["locals"]) if i > bj["arg_count"] and loc.get("name")]
-            if len(cur) == len(want_locals) and all(bj["tys"][loc["ty"]] == wt for (i, loc), (wn, wt) in zip(cur, want_locals)):
+            same_names = sorted(loc["name"] for _, loc in cur) == sorted(wn for wn, _ in want_locals)
+            # (if only the order of declarations changed the names are still the pinned ones and nothing is mapped)
+            if not same_names and len(cur) == len(want_locals) and all(bj["tys"][loc["ty"]] == wt for (i, loc), (wn, wt) in zip(cur, want_locals)):
                 for (i, loc), (wn, wt) in zip(cur, want_locals):
                     if loc["name"] != wn:
                         ren[loc["name"]] = wn
